@@ -105,6 +105,126 @@ def replay_timer_generic(inputs, obl):
                 problems.append(f".timerc on a timer already stopped by a false return gave {r1}")
     if eval_sys_fn_cancel_timer(42) != 0:
         problems.append(".timerc(42) != 0")
+    problems += tick_placement_problems() + truth_problems() + real_asyncio_early_dispatch_problems()
     if problems:
         return dict(confirmed=True, detail='; '.join(problems[:4]))
     return dict(confirmed=False, detail="generic timer scenarios behave as specified")
+
+
+def tick_placement_problems():
+    """which boundary each tick serves, against an independent oracle: the first tick serves boundary 1; after a tick for boundary m
+    that ends at time e the next tick serves the least boundary j > m with start + j*interval > e.  Dispatch latencies: exactly on
+    the deadline, within the clock resolution BEFORE it (asyncio: due when `when < time() + resolution`), late by less / more than
+    an interval; callback durations from 0 to 2.5 intervals."""
+    import math
+    from klongpy.sys_fn_timer import _call_periodic
+    problems = []
+    RES = 1e-3
+    for interval in (1, 2, 5):
+        for lat_name, lat in (('on the deadline', 0.0), ('within the clock resolution before the deadline', -RES / 2),
+                              ('0.3 intervals late', 0.3 * interval), ('1.6 intervals late', 1.6 * interval)):
+            for dur in (0.0, 0.25, 0.75, 1.0, 1.5, 2.5):
+                start = 10.0
+                loop = FakeLoop(start)
+                served, ends = [], []
+
+                def cb():
+                    loop.now += dur * interval
+                    ends.append(loop.now)
+                    return len(ends) < 5
+                _call_periodic(loop, 'x', interval, cb)
+                for _ in range(8):
+                    lv = sorted(loop.live(), key=lambda h: h.when)
+                    if not lv:
+                        break
+                    h = lv[0]
+                    loop.now = max(loop.now, h.when + lat)
+                    h.fired = True
+                    served.append((h.when - start) / interval)
+                    h.fn(*h.args)
+                want, m = [], None
+                for e in ends:
+                    m = 1 if m is None else j
+                    want.append(m)
+                    j = max(m, math.floor((e - start) / interval + 1e-9)) + 1
+                got = [round(x, 6) for x in served]
+                if got != [float(x) for x in want]:
+                    problems.append(f"interval={interval}, dispatch {lat_name}, callback takes {dur} intervals: ticks serve boundaries {got}, expected {want}")
+    return problems[:3]
+
+
+def truth_problems():
+    """the timer goes on exactly while the callback returns a true value (Python truth of the value, as Klong results arrive)"""
+    import numpy as np
+    from klongpy.sys_fn_timer import _call_periodic
+    problems = []
+    falsy = [0, 0.0, False, None, '', [], np.int64(0), np.float64(0.0), np.bool_(False), np.array([]), np.array(0), np.array([0])]
+    truthy = [1, 2.5, True, 'a', [0], np.int64(3), np.float64(0.5), np.bool_(True), np.array([7]), np.array(2)]
+    for interval in (0, 1):
+        for v in falsy + truthy:
+            try:
+                bool(v)
+            except Exception:           # a value without a truth value (an empty array in this NumPy) is outside the property
+                continue
+            loop = FakeLoop(0.0)
+            calls = []
+
+            def cb():
+                calls.append(loop.now)
+                return 1 if len(calls) < 2 else (v if len(calls) == 2 else 0)
+            t = _call_periodic(loop, 'x', interval, cb)
+            n = 0
+            try:
+                while loop.step() and n < 6:
+                    n += 1
+            except Exception as e:
+                problems.append(f"interval={interval}: the tick whose callback returned {v!r} ({type(v).__name__}) raised {e!r}")
+                continue
+            want = 2 if not bool(v) else 3
+            if len(calls) != want:
+                problems.append(f"interval={interval}: the callback returned {v!r} ({type(v).__name__}, {'true' if bool(v) else 'false'}) at its 2nd tick "
+                                f"and was called {len(calls)} times in all, expected {want}")
+    return problems[:3]
+
+
+def real_asyncio_early_dispatch_problems():
+    """the real asyncio loop (its own _run_once) on a virtual clock that is advanced to within the clock resolution before each deadline"""
+    import asyncio
+    import selectors
+    from klongpy.sys_fn_timer import _call_periodic
+
+    class NoWait(selectors.DefaultSelector):
+        def select(self, timeout=None):
+            return super().select(0)
+
+    class VLoop(asyncio.SelectorEventLoop):
+        def __init__(self, res):
+            super().__init__(NoWait())
+            self.vnow = 100.0
+            self._clock_resolution = res
+
+        def time(self):
+            return self.vnow
+    problems = []
+    for res, early in ((1e-3, 4e-4), (1e-9, 5e-10)):
+        loop = VLoop(res)
+        ticks = []
+        try:
+            t = _call_periodic(loop, 'x', 1, lambda: (ticks.append(loop.vnow), 1)[1])
+            for _ in range(12):
+                if len(ticks) >= 4:
+                    break
+                whens = [h._when for h in loop._scheduled if not h._cancelled]
+                if not whens:
+                    break
+                loop.vnow = max(loop.vnow, min(whens) - early)
+                loop.call_soon(loop.stop)
+                loop.run_forever()
+            t.cancel()
+        finally:
+            loop.close()
+        served = [round(x - 100.0) for x in ticks]
+        if served != [1, 2, 3, 4]:
+            problems.append(f"asyncio loop with clock resolution {res}, each timer dispatched {early}s before its deadline (allowed: when < time()+resolution): "
+                            f"ticks at {ticks} serve boundaries {served}, expected [1, 2, 3, 4]")
+    return problems[:1]
